@@ -16,7 +16,11 @@ TECHNIQUE = ('interface agreement by name and position between five descriptions
              'path enumeration of the Python block that builds the template context against the variables each template reads under its {{if}} guards; '
              'structural pairing checks on the C definition; path enumeration of the integer-index code (template expansions and the !is_slice branch) '
              'with the index-status domain of C15; expansion table of the compile-time unellipsify() over every index-kind sequence (exact abstraction of its input), '
-             'folded on model nodes and compared with NumPy\'s expansion rule')
+             'folded on model nodes and compared with NumPy\'s expansion rule; fourth round: the same folding for the code generator (C16-GEN) and, after a mechanical pyx -> Python '
+             'translation (cdef declarations, casts, address-of), for the index loop of memview_slice (C16-PYXSLICE) and the object-level _unellipsify (C16-PYXELL); symbolic execution of '
+             'pybuffer_index on linear forms over the class partition of the index (C16-PYXIDX); linear forms IDX / LEN for what is added to an index and what it is compared with '
+             '(C16-AMOUNT); reference equations of a strided slice for the stores of the helper and field / axis agreement of the templates and callers (C16-STORE, C16-FIELDS); '
+             'guard dominance of the suboffsets store (C16-SUBDIM); sign-class evaluation of the have_step block (C16-STEP)')
 DECIDES = ('(SIG) prototype and definition of __pyx_memoryview_slice_memviewslice have identical parameter lists and every have_<x> flag follows the order of its <x> bound; '
            '(EXTERN) the cdef extern declaration in MemoryView.pyx has the same parameter names, order and type kinds, returns int and declares an exception value equal to the '
            'C error return; (TPL) the ToughSlice call passes as many arguments as the C function has parameters, every template variable sits at the parameter it is named after, '
@@ -32,8 +36,19 @@ DECIDES = ('(SIG) prototype and definition of __pyx_memoryview_slice_memviewslic
            ' (ELL) Compiler/MemoryView.unellipsify reads its indices only through is_none / is_slice / pos / the EllipsisNode class test (anything else: ANALYSIS-ERROR); for every '
            'sequence of index kinds (Ellipsis, None, slice, integer) of length <= 4 with at most one Ellipsis that is valid for ndim 1..3, the expansion equals NumPy\'s: the Ellipsis '
            'becomes ndim - #consuming indices full slices in its place, missing dimensions are appended, written indices keep identity and order, newaxes are the None entries, '
-           'have_slices is set whenever the expansion is not purely integer.')
-NOT_DECIDED = ('suboffset bookkeeping and the data-pointer offset of a slice, _unellipsify / ellipsis handling of the memoryview *object* in MemoryView.pyx, '
+           'have_slices is set whenever the expansion is not purely integer. '
+           '(AMOUNT) SliceIndex (all expansions) and the integer branch of the helper add exactly the extent of the indexed axis to a negative index and bounds-test against that extent; '
+           '(STEP) an absent step gives step 1 / negative_step false, a given step sets negative_step exactly when negative; (STORE) the helper stores stride * step, the computed extent and the '
+           'source suboffset at axis new_ndim and moves data / suboffsets by start * stride; SimpleSlice copies field F of source axis dim to field F of destination axis new_ndim; ToughSlice and '
+           'the pyx call sites read shape/strides/suboffsets at the axis they pass as dim; (SUBDIM) an offset is added to suboffsets[X] only under a test establishing X >= 0; '
+           '(GEN) generate_buffer_slice_code folded on every sequence of index kinds (None, integer, slices with all 8 combinations of given bounds; length <= 2, length 3 over 4 kinds): '
+           'source axis = number of preceding non-None indices, destination axis = number of preceding None/slice indices, new axis: extent 1 / suboffset -1, SimpleSlice exactly for a bare `:`, '
+           'have_<b> exactly for the given bounds, bound values from the bound expressions; (PYXSLICE) the index loop of memview_slice folded on integers and on slices with start/stop/step in '
+           '{None, 0, 5, -3}: have_<b> <=> bound is not None, a given bound is passed unchanged, source axis, new_ndim, is_slice; (PYXELL) _unellipsify / _unellipsify_index_tuple on every '
+           'index of kinds (Ellipsis, slice, integer) up to length 4, ndim 1..3; (PYXIDX) pybuffer_index: for every class of the index relative to the axis length an index in [-len, len) '
+           'addresses element index (+ len), every other raises IndexError before an address is formed; (PYXUSE) __getitem__/__setitem__ take the memview_slice path exactly when have_slices, '
+           'per-axis loops pass (item, counter) to pybuffer_index; (FIELDS) shape/strides/suboffsets assignments in memview_slice, slice_copy, memoryview_fromslice, pybuffer_index keep field and axis.')
+NOT_DECIDED = ('the indirect-dimension bookkeeping beyond C16-SUBDIM (which axis is pending, dereferencing in SliceIndex), index lists with several Ellipsis entries at the object level, '
                'compile-time unellipsify for index lists longer than 4, ndim > 3 or with several Ellipsis entries, '
                'the SimpleSlice copy semantics beyond its variable reads')
 ASSUMPTIONS = ['template variables that only occur in {{if}} conditions are two-valued for the purpose of expanding the SliceIndex template']
@@ -87,6 +102,23 @@ MUTATIONS = [
     ('Cython/Utility/MemoryView_C.c', 'definition: `!(0 <= start && start < shape)` -> `!__Pyx_is_valid_index(start, shape)`', None),
     ('Cython/Utility/MemoryView.pyx', 'memview_slice: rename local cindex -> cidx; extern declaration on one line', None),
     ('Cython/Utility/MemoryView.pyx', 'memview_slice: reorder the six start/stop/step/have_* assignments', None),
+]
+
+# fourth round (mutation brainstorming, mutants/C16/*): 38 breaking edits over the C helper, the three templates, generate_buffer_slice_code and MemoryView.pyx (memview_slice,
+# _unellipsify, pybuffer_index, slice_copy, memoryview_fromslice, __getitem__); 3 were reported before (C16-DEF, C16-SLICE, C16-INDEX; one more ended in ANALYSIS-ERROR), 38 now.
+# 15 behaviour-preserving rewrites, all silent.  One genuine defect of the unmodified tree met on the way (FINDING_1: too many indices), rule C16-PYXMANY pending.
+MUTATIONS += [
+    ('Cython/Utility/MemoryView_C.c', 'helper: strides without step, shape at [dim], data += start * step, suboffsets = -1', 'C16-STORE helper:*'),
+    ('Cython/Utility/MemoryView_C.c', 'helper / SliceIndex: `+= stride` instead of the extent; bounds test against the stride', 'C16-AMOUNT'),
+    ('Cython/Utility/MemoryView_C.c', 'absent step: negative_step = 1', 'C16-STEP'),
+    ('Cython/Utility/MemoryView_C.c', 'SimpleSlice / ToughSlice: wrong source axis, shape <- strides', 'C16-STORE SimpleSlice:* / ToughSlice:*'),
+    ('Cython/Utility/MemoryView_C.c', 'suboffset_dim test inverted (helper, SliceIndex)', 'C16-SUBDIM'),
+    ('Cython/Compiler/MemoryView.py', 'newaxis extent 0; None consumes a source axis; new_ndim not advanced / advanced for an integer; is_full_slice never cleared; have_<b> True for an absent bound', 'C16-GEN (+ C16-CTX template-selected)'),
+    ('Cython/Utility/MemoryView.pyx', 'memview_slice: have_step = bool(index.step); stop = index.stop or -1; new_ndim += 1 dropped / added; start 0 for an integer; p_src.shape[new_ndim]', 'C16-PYXSLICE / C16-STORE'),
+    ('Cython/Utility/MemoryView.pyx', '_unellipsify_index_tuple: ellipsis_end + 1; one padding slice too few', 'C16-PYXELL'),
+    ('Cython/Utility/MemoryView.pyx', 'pybuffer_index: `index > shape`; second negativity test dropped', 'C16-PYXIDX'),
+    ('Cython/Utility/MemoryView.pyx', '__getitem__: `if not have_slices`; get_item_pointer: dim 0 for every axis', 'C16-PYXUSE'),
+    ('Cython/Utility/MemoryView.pyx', 'slice_copy / memoryview_fromslice / pybuffer_index: shape stored as strides', 'C16-FIELDS'),
 ]
 
 MVC = 'Cython/Utility/MemoryView_C.c'
@@ -370,6 +402,18 @@ def rule_ctx(ctx, M):
                           'it must be rendered through int()' % (tname, var, node_src(path.values.get(var), 40)))
     for need in ('ToughSlice', 'SliceIndex'):
         if need not in seen_templates:
+            if ctx.cat.files.get('MemoryView_C.c', {}).get(need) and seen_templates:
+                # the template is still there, the generator no longer reaches it: a finding about the generator, not a lost anchor
+                r.inst('template-selected:%s' % need)
+                r.violate('template-selected:%s' % need, MVPY, fn.lineno,
+                          'no path of generate_buffer_slice_code selects the %s template any more (selected: %s): %s' % (
+                              need, sorted(seen_templates), 'slices with bounds are compiled like a bare `:`' if need == 'ToughSlice' else 'integer indices are not compiled as element offsets'))
+                # its variable reads remain obligations (unreachable ones): the instance count must not look like a lost anchor
+                for var, guards, kind, expr in Q.template_reads(M.section(need)[1]):
+                    if ('%s:%s' % (need, var), guards) not in counted:
+                        counted.add(('%s:%s' % (need, var), guards))
+                        r.inst('%s:%s:unreached' % (need, var))
+                continue
             raise AnalysisError('no path of generate_buffer_slice_code selects the %s template' % need)
     # directive provenance of base entries
     opt = tables.module_assign(ctx.parse('Cython/Compiler/Options.py'), '_directive_defaults')
@@ -696,5 +740,7 @@ def rule_index(ctx, M):
 def run(ctx):
     M = Model(ctx)
     from ..rules import slicenorm, sC16
+    # pending finding (FINDING_1 of strengthening session G3): sC16.rule_pyx_too_many (C16-PYXMANY) reports the unmodified tree - an index with more entries than
+    # dimensions is not rejected by _unellipsify (silent extra dimensions, out-of-bounds writes beyond 8 slices); register it once the repair is in.
     return [rule_sig(ctx, M), rule_extern(ctx, M), rule_tpl(ctx, M), rule_ctx(ctx, M), rule_calls(ctx, M), rule_def(ctx, M), rule_index(ctx, M), slicenorm.rule_slice(ctx),
-            sC16.rule_ellipsis(ctx)]
+            sC16.rule_ellipsis(ctx), sC16.rule_amount(ctx, M), sC16.rule_step(ctx), sC16.rule_store(ctx, M), sC16.rule_gen(ctx), sC16.rule_pyx_ellipsis(ctx), sC16.rule_pyx_slice(ctx), sC16.rule_pyx_index(ctx), sC16.rule_suboffset_axis(ctx, M), sC16.rule_pyx_use(ctx), sC16.rule_fields(ctx)]
